@@ -524,8 +524,23 @@ func (g *Gen) FailScenario() []AOp {
 		return AOp{Op: "mutate", Table: c.h, Where: byUUID(h), Mutations: [][]interface{}{{c.col, "delete", []interface{}{x}, "set"}}}
 	}
 	failing := []AOp{drop(h1), {Op: "insert", Table: "NoSuchTable", UUID: g.fresh(), Bad: true, BadKind: "table"}}
-	if g.chance(0.5) {
+	switch y := g.Rnd.Float64(); {
+	case y < 0.35:
 		failing = []AOp{drop(h1), drop(h2), {Op: "frobnicate", Table: c.h, Bad: true, BadKind: "op"}}
+	case y < 0.7 && len(g.S.Tables[c.h].Indexes) > 0:
+		// every operation succeeds, the commit is refused: a third holder with the index values of the second
+		dup := map[string]interface{}{}
+		for _, ix := range g.S.Tables[c.h].Indexes {
+			for _, cn := range ix {
+				if v, ok := r2[cn]; ok {
+					dup[cn] = v
+				}
+			}
+		}
+		if len(dup) > 0 {
+			failing = []AOp{drop(h1), {Op: "insert", Table: c.h, UUID: g.fresh(), Row: dup}}
+			g.count("drop-reference-then-fail-at-commit")
+		}
 	}
 	after := []AOp{drop(h1), drop(h2)}
 	for _, ops := range [][]AOp{setup, failing, after} {
